@@ -3,6 +3,7 @@ C15 — Loading is independent of the namespace URI.
 -/
 import Pyc.Model.Namespace
 import Pyc.Generated.NsUsage
+import Pyc.Generated.NsWrap
 
 namespace Pyc.Props.C15
 open Pyc.Ns
@@ -53,6 +54,115 @@ theorem hardwired_not_invariant :
       loadHardwired "ns141" geometryIds (renameNs x.ns b x) ≠ loadHardwired "ns141" geometryIds x := by
   refine ⟨.node "ns141" "COLLADA" [] "" [.node "ns141" "library_geometries" [] ""
       [.node "ns141" "geometry" [("id", "g")] "" []]], "ns15", by decide, by decide⟩
+
+/-! ### saving a document that is not in the default namespace (`Collada.save` wraps the namespace-unaware `_save`) -/
+
+mutual
+  theorem rename_absent (a b : String) : ∀ x : Xml, occurs a x = false → renameNs a b x = x
+    | .node ns name attrs text kids, h => by
+      simp only [occurs, Bool.or_eq_false_iff] at h
+      have hns : ns ≠ a := by simpa using h.1
+      simp [renameNs, hns, renameList_absent a b kids h.2]
+  theorem renameList_absent (a b : String) : ∀ xs : List Xml, occursList a xs = false → renameList a b xs = xs
+    | [], _ => by simp [renameList]
+    | x :: xs, h => by
+      simp only [occursList, Bool.or_eq_false_iff] at h
+      simp [renameList, rename_absent a b x h.1, renameList_absent a b xs h.2]
+end
+
+mutual
+  theorem rename_roundtrip (a b : String) : ∀ x : Xml, occurs b x = false → renameNs b a (renameNs a b x) = x
+    | .node ns name attrs text kids, h => by
+      simp only [occurs, Bool.or_eq_false_iff] at h
+      have hns : ns ≠ b := by simpa using h.1
+      simp only [renameNs]
+      by_cases e : ns = a
+      · simp [e, renameList_roundtrip a b kids h.2]
+      · simp [e, hns, renameList_roundtrip a b kids h.2]
+  theorem renameList_roundtrip (a b : String) : ∀ xs : List Xml, occursList b xs = false →
+      renameList b a (renameList a b xs) = xs
+    | [], _ => by simp [renameList]
+    | x :: xs, h => by
+      simp only [occursList, Bool.or_eq_false_iff] at h
+      simp [renameList, rename_roundtrip a b x h.1, renameList_roundtrip a b xs h.2]
+end
+
+mutual
+  theorem occurs_after_rename (a b : String) (hab : a ≠ b) : ∀ x : Xml, occurs a (renameNs a b x) = false
+    | .node ns name attrs text kids => by
+      simp only [renameNs, occurs, Bool.or_eq_false_iff]
+      refine ⟨?_, occursList_after_rename a b hab kids⟩
+      by_cases e : ns = a
+      · simp [e]; exact fun h => hab h.symm
+      · simp [e]
+  theorem occursList_after_rename (a b : String) (hab : a ≠ b) : ∀ xs : List Xml, occursList a (renameList a b xs) = false
+    | [] => by simp [renameList, occursList]
+    | x :: xs => by
+      simp [renameList, occursList, occurs_after_rename a b hab x, occursList_after_rename a b hab xs]
+end
+
+mutual
+  theorem occurs_rename_other (a b c : String) (hca : c ≠ a) (hcb : c ≠ b) : ∀ x : Xml,
+      occurs c (renameNs a b x) = occurs c x
+    | .node ns name attrs text kids => by
+      simp only [renameNs, occurs, occursList_rename_other a b c hca hcb kids]
+      by_cases e : ns = a
+      · have h1 : (b == c) = false := by simpa using Ne.symm hcb
+        have h2 : (a == c) = false := by simpa using Ne.symm hca
+        simp [e, h1, h2]
+      · simp [e]
+  theorem occursList_rename_other (a b c : String) (hca : c ≠ a) (hcb : c ≠ b) : ∀ xs : List Xml,
+      occursList c (renameList a b xs) = occursList c xs
+    | [] => by simp [renameList]
+    | x :: xs => by
+      simp [renameList, occursList, occurs_rename_other a b c hca hcb x, occursList_rename_other a b c hca hcb xs]
+end
+
+/-- **an unedited document is saved as it is**, whatever foreign content it embeds — also content in the default
+    namespace itself: if the namespace-unaware save leaves the default-namespace rendering of the document alone,
+    the wrapped save returns the document unchanged (element by element, namespace by namespace). -/
+theorem saveNs_unedited (dflt parked : String) (core : Xml → Xml) (x : Xml) (hpd : parked ≠ dflt)
+    (hp : occurs parked x = false)
+    (hcore : core (renameNs x.ns dflt (renameNs dflt parked x)) = renameNs x.ns dflt (renameNs dflt parked x))
+    (hcore' : x.ns = dflt → core x = x) : saveNs dflt parked core x = x := by
+  unfold saveNs
+  by_cases hd : x.ns = dflt
+  · rw [if_pos hd]; exact hcore' hd
+  · rw [if_neg hd, hcore]
+    -- x1 := dflt ↦ parked: no dflt left; x2 := X ↦ dflt; back: dflt ↦ X gives x1 again; parked ↦ dflt gives x
+    have h1 : occurs dflt (renameNs dflt parked x) = false := occurs_after_rename dflt parked (Ne.symm hpd) x
+    have h2 := rename_roundtrip x.ns dflt (renameNs dflt parked x) h1
+    rw [h2]
+    exact rename_roundtrip dflt parked x hp
+
+/-- without parking, foreign default-namespace content is moved into the document namespace (the defect of the
+    first repair, found by the unmodelled-content oracle of C03) -/
+theorem noPark_moves_foreign_content :
+    ∃ x : Xml, saveNsNoPark "ns141" id x ≠ x ∧ saveNs "ns141" "parked" id x = x := by
+  refine ⟨.node "ns15" "COLLADA" [] "" [.node "ns15" "extra" [] "" [.node "ns141" "note" [] "kept" []]], ?_, ?_⟩
+  · intro h
+    have := congrArg nsList h
+    simp [saveNsNoPark, Xml.ns, renameNs, renameList, nsList, nsListL] at this
+  · simp [saveNs, Xml.ns, renameNs, renameList]
+
+/-! tie: the wrapper as the source has it on this run (translators/ns_wrap.py) IS `saveNs` -/
+open Pyc.Generated.NsWrap in
+def symVal (dflt parked doc : String) : Sym → String
+  | .dflt => dflt
+  | .doc => doc
+  | .parked => parked
+
+open Pyc.Generated.NsWrap in
+/-- run the generated step list on a document whose root namespace is `doc` -/
+def runSteps (dflt parked doc : String) (core : Xml → Xml) : List Step → Xml → Xml
+  | [], x => x
+  | .retag a b :: rest, x => runSteps dflt parked doc core rest (renameNs (symVal dflt parked doc a) (symVal dflt parked doc b) x)
+  | .core :: rest, x => runSteps dflt parked doc core rest (core x)
+
+/-- the statements of `Collada.save`, in the order they stand in the source on this run, compute `saveNs` -/
+theorem source_wrapper_is_saveNs (dflt parked : String) (core : Xml → Xml) (x : Xml) (h : x.ns ≠ dflt) :
+    runSteps dflt parked x.ns core Pyc.Generated.NsWrap.steps x = saveNs dflt parked core x := by
+  simp [Pyc.Generated.NsWrap.steps, runSteps, symVal, saveNs, h]
 
 /-! ### non-vacuity -/
 def sample : Xml := .node "ns141" "COLLADA" [] "" [
